@@ -37,10 +37,19 @@ CC(cc) == CASE cc = "AT" -> <<65, 84>> [] cc = "BE" -> <<66, 69>> [] cc = "BR" -
             [] cc = "GB" -> <<71, 66>> [] cc = "EL" -> <<69, 76>> [] cc = "IT" -> <<73, 84>> [] cc = "NL" -> <<78, 76>>
             [] cc = "PL" -> <<80, 76>> [] cc = "PT" -> <<80, 84>> [] cc = "IN" -> <<73, 78>>
 \* upper case, separators and symbols dropped, one leading country prefix dropped (EL also GR)
+\* FR: a bare SIREN (9 digits with a correct Luhn check digit) is promoted to the VAT number by prepending
+\* the two-digit key (12 + 3 (SIREN mod 97)) mod 97; anything else is left for validation to refuse
+LuhnSum(c) == LET n == Len(c)
+                  RECURSIVE L(_, _) L(i, acc) == IF i < 1 THEN acc
+                                                 ELSE L(i - 1, acc + (IF (n - i) % 2 = 1 THEN DigSum(2 * D(c, i)) ELSE D(c, i)))
+              IN L(n, 0)
+IsSiren(c) == Len(c) = 9 /\ AllDigits(c) /\ LuhnSum(c) % 10 = 0
+FRkey(c) == LET k == (12 + 3 * NumMod(c, 1, 9, 97, 0)) % 97 IN <<48 + (k \div 10), 48 + (k % 10)>>
 Normalize(cc, s) ==
     LET a == StripPrefix(Clean(s, 1), CC(cc))
         b == IF cc = "EL" THEN StripPrefix(a, <<71, 82>>) ELSE a
-    IN  IF cc = "CH" THEN StripSuffix(StripSuffix(StripSuffix(b, <<77, 87, 83, 84>>), <<84, 86, 65>>), <<73, 86, 65>>) ELSE b
+    IN  IF cc = "CH" THEN StripSuffix(StripSuffix(StripSuffix(b, <<77, 87, 83, 84>>), <<84, 86, 65>>), <<73, 86, 65>>)
+        ELSE IF cc = "FR" /\ IsSiren(b) THEN FRkey(b) \o b ELSE b
 
 ---------------------------------------------------------------------------
 (* national rules on normal forms *)
